@@ -449,7 +449,37 @@ def err_text(ex: BaseException) -> str:
     return arg[:160]
 
 
-def outcome(fn: Callable[[], Any], value: bool = True) -> Tuple[List[Any], Any]:
+def _err_part(a: Any, depth: int = 0) -> Any:
+    if depth > 5:
+        return "..."
+    if isinstance(a, str):
+        a = _ADDR.sub("0x", a)
+        for cut in (" (in activation", " (in container"):
+            i = a.find(cut)
+            if i >= 0:
+                a = a[:i]
+        return a[:200]
+    if isinstance(a, type):
+        return a.__name__
+    if isinstance(a, BaseException):
+        return [type(a).__name__, [_err_part(x, depth + 1) for x in a.args[:8]]]
+    if isinstance(a, (tuple, list)):
+        return [_err_part(x, depth + 1) for x in a[:8]]
+    if a is None or isinstance(a, (bool, int, float)):
+        return repr(a)
+    return "<" + type(a).__name__ + ">"
+
+
+def err_detail(ex: BaseException) -> str:
+    """Digest of *everything* an exception carries in its args (nested exceptions, classes, texts;
+    without addresses and embedded activations): what a caller that inspects the error sees."""
+    try:
+        return digest(_err_part(ex))
+    except RecursionError:
+        return "<unprintable>"
+
+
+def outcome(fn: Callable[[], Any], value: bool = True, detail: bool = False) -> Tuple[List[Any], Any]:
     """Run fn; return (fingerprint, value-or-exception).  Fingerprint = [kind, class, canonical];
     with value=False a successful result is fingerprinted as ["value"] only."""
     try:
@@ -467,6 +497,8 @@ def outcome(fn: Callable[[], Any], value: bool = True) -> Tuple[List[Any], Any]:
             # surfaces) depends on a few frames more or less, including the simulator's own:
             # all of it is one outcome
             return ["exception", "RecursionError", ""], ex
+        if detail:
+            return [kind, type(ex).__name__, text, err_detail(ex)], ex
         return [kind, type(ex).__name__, text], ex
     if not value:
         return ["value"], v
